@@ -103,6 +103,20 @@ def gen_cases(tier, seed):
             "cli": rnd.random() < 0.12,
             "shard_bits": [rnd.randint(0, 3), rnd.randint(0, 3), rnd.randint(0, 3)],
             "vseed": rnd.randrange(2 ** 32)})
+    # directed: a window that is the identity for the stored type (the combined scaling is
+    # then the identity, and nibabel hands out the on-disk type)
+    for k, (st_, tg_, mm_) in enumerate([("uint8", "uint8", (0.0, 255.0)),
+                                        ("uint8", "uint8", (None, 255.0)),
+                                        ("uint16", "uint16", (0.0, 65535.0)),
+                                        ("float32", "float32", (0.0, 1.0)),
+                                        ("uint8", "uint16", (0.0, 255.0)),
+                                        ("uint16", "uint8", (0.0, 65535.0))]):
+        c = dict(cases[k])
+        c.update({"layout": "3d", "stored": st_, "target": tg_, "mm": mm_, "scal": None,
+                  "ignore": False, "encoding": "raw", "mmap": k % 2 == 1,
+                  "bigendian": False, "identity_window": True,
+                  "vseed": rnd.randrange(2 ** 32)})
+        cases.append(c)
     # directed: chunks of more than 2^20 voxels (vectorised integer expectation)
     for k in range(3 if tier == "quick" else 12):
         cases.append({"huge": True, "stored": ["uint8", "int16", "uint16"][k % 3],
